@@ -359,6 +359,13 @@ def directed_cases():
     for tri, q in (([(-BIG, -BIG), (BIG, -BIG), (-BIG, BIG)], (-BIG // 2, -BIG // 2)), ([(-BIG, -BIG), (BIG, -BIG), (-BIG, BIG)], (BIG // 2, BIG // 2)),
                    ([(-BIG, -BIG), (BIG, -BIG), (BIG, BIG)], (BIG - 7, -BIG + 9)), ([(0, 0), (BIG, 1), (BIG, BIG), (1, BIG)], (BIG // 2, BIG // 2 + 1))):
         add("d_label_huge_polygon", [mkstruct("top", [e_boundary(1, 0, closed(tri)), e_text("A", 1, 0, q)])])
+    # overlapping shapes on two layers whose NUMBERS agree modulo 256 / modulo 2^15 (a per-layer table indexed by a truncated
+    # layer number would mix them up): the label names the shape of its own layer only
+    for la, lb in ((44, 300), (1, 257), (0, 256), (5, -251), (255, -1), (0, -32768), (32767, -1), (12, 12 + 4096), (300, 44)):
+        add("d_layers_congruent", [mkstruct("top", [e_boundary(la, 0, rect_xy(0, 0, 10, 6)), e_boundary(lb, 0, rect_xy(2, 2, 8, 4)),
+                                                      e_text("A", la, 0, (5, 3)), e_path(lb, 0, [0, 3, 10, 3], 2)])])
+    add("d_layers_congruent", [mkstruct("top", [e_boundary(44, 0, rect_xy(0, 0, 10, 6)), e_text("a", 44, 0, (5, 3)),
+                                                  e_boundary(300, 0, rect_xy(0, 0, 10, 6)), e_text("b", 300, 0, (5, 3))])])
     # labels on a rectangle: inside, edge, corner, outside, other layer, two names, case
     R = e_boundary(4, 0, rect_xy(0, 0, 10, 6))
     for q in ((5, 3), (0, 3), (10, 6), (11, 3), (5, -1), (5, 7)):
